@@ -227,7 +227,7 @@ var c11Flows = []string{"Validate", "ValidateWithConfiguration", "CompileProfile
 func init() {
 	Register(Meta{
 		ID: "C11", Level: "model_checking", HangIsViolation: true,
-		Rule:        "model: per entry point an automaton over (next stage, started?, channel closed?, returned?, failed?) accepting exactly the prefixes of Start/Done pairs in pipeline order with the documented closing rule; all reachable model states are enumerated and self-checked. Conformance: 6 entry flows (Validate, ValidateWithConfiguration, CompileProfile alone, CompileProfile->ValidateCompiled, ->ValidateCompiledWithConfiguration, compile then two validations each with a new channel) x 18 faults (none x3, 6 profile faults in parsing, unknown prefix in generation, 2 in Rego compilation, 2 data parsing, 2 normalisation, evaluation error, empty result set from a caller-built query) x channel capacity {0,1,64} x consumer {collector, milestones.GenerateMilestonesFromEvents}: the observed event sequence, the closure (observed without timers: closing a closed channel panics) and the milestones are run through the automaton; each fault is first asserted to arise in its intended stage. Non-trivial = run with a fault; distinct by (flow, fault, capacity, consumer).",
+		Rule:        "model: per entry point an automaton over (next stage, started?, channel closed?, returned?, failed?) accepting exactly the prefixes of Start/Done pairs in pipeline order with the documented closing rule; all reachable model states are enumerated and self-checked. Conformance: 6 entry flows (Validate, ValidateWithConfiguration, CompileProfile alone, CompileProfile->ValidateCompiled, ->ValidateCompiledWithConfiguration, compile then two validations each with a new channel) x 18 faults (none x3, 6 profile faults in parsing, unknown prefix in generation, 2 in Rego compilation, 2 data parsing, 2 normalisation, evaluation error, empty result set from a caller-built query) x channel capacity {0,1,64} x consumer {collector, milestones.GenerateMilestonesFromEvents} (+ a slow collector at capacities 1, 2, 5 and a slow milestone consumer on an unbuffered milestone channel at capacities 0 and 64): the observed event sequence, the closure (observed without timers: closing a closed channel panics) and the milestones are run through the automaton; each fault is first asserted to arise in its intended stage. Non-trivial = run with a fault; distinct by (flow, fault, capacity, consumer).",
 		Assumptions: []string{"a failing stage may or may not emit its completion event (the statement allows both)"},
 	}, func(tier string, emit func(c11Case)) {
 		for _, fl := range c11Flows {
@@ -275,7 +275,11 @@ func c11Call(capacity int, useMilestones bool, call func(ch *chan events.Event) 
 	if useMilestones {
 		// a tee: the harness needs the raw events too
 		raw := make(chan events.Event, 256)
-		mch := make(chan milestones.Milestone, 256)
+		mcap := 256
+		if c11Slow {
+			mcap = 0 // a slow milestone consumer on an unbuffered milestone channel: the generator's sends block
+		}
+		mch := make(chan milestones.Milestone, mcap)
 		go func() {
 			for e := range ch {
 				o.evs = append(o.evs, e)
@@ -289,6 +293,9 @@ func c11Call(capacity int, useMilestones bool, call func(ch *chan events.Event) 
 		go func() {
 			for m := range mch {
 				o.miles = append(o.miles, m)
+				if c11Slow {
+					time.Sleep(3 * time.Millisecond)
+				}
 			}
 			o.milesEnded = true
 			close(done)
@@ -446,6 +453,9 @@ func c11Run(c *Ctx, cs c11Case) {
 		}
 	}
 	confs = append(confs, cc{1, false, true}, cc{2, false, true}, cc{5, false, true})
+	// a slow consumer of the MILESTONES (unbuffered milestone channel, 3 ms per milestone) behind an unbuffered and a
+	// buffered event channel: durations must still be non-negative, one per completed stage
+	confs = append(confs, cc{0, true, true}, cc{64, true, true})
 	for _, cf := range confs {
 		{
 			capacity, um := cf.capacity, cf.um
